@@ -1,4 +1,4 @@
-CONSTANTS MaxDepth = 2 Mode = "code"
+CONSTANTS MaxDepth = 2 Mode = "code" WideLast = TRUE
 INIT Init
 NEXT Next
 INVARIANT StrictLaws
